@@ -498,7 +498,38 @@ func c16R5(p *Prog, r *Report) {
 				}
 			}
 		}
+		// ... and only after the FINAL response: an interim (1xx) response answering a request that
+		// carries a close indication (Connection: close, HTTP/1.0) is followed by the final response,
+		// which must still be forwarded; acting on the close indication right after the interim one
+		// ends the connection with the final response unread
+		for _, v := range fr.G.V {
+			if v.Kind != VCond || !strings.HasSuffix(exprStr(v.Node), ".Close") {
+				continue
+			}
+			endsHere := false
+			for _, e := range v.Succs {
+				if e.Label == LTrue && !fr.G.Reach([]int{e.To}, nil, nil)[rr.V] {
+					endsHere = true
+				}
+			}
+			if !endsHere {
+				continue
+			}
+			r.Check(len(finalEdges) > 0 && fr.G.EdgeDominates(finalEdges, v.ID), rule, "httpproxy.serverForwardResponses:close-acted-on-after-final-response:"+closeOwner(rinfo, v.Node.(ast.Expr)), p.posStr(v.Node.Pos()), "the close indication is examined only once the response is final (>= 200)",
+				"the close indication "+exprStr(v.Node)+" ends forwarding on a path where the response just forwarded may be an interim (1xx) one: a request with Connection: close (or HTTP/1.0) that is answered with 100 Continue never gets its final response")
+		}
 		r.Check(closeOK, rule, "httpproxy.serverForwardResponses:close-ends-after-flush", p.posStr(fr.Body.Pos()), "a close indication ends forwarding, after the response was flushed", "a close indication on the request or response does not end forwarding (or ends it before the response was flushed)")
 	}
 	r.Floor(rule, 4)
+}
+
+
+// closeOwner names a `x.Close` condition by the type of x (request or response), not by x's name.
+func closeOwner(info *types.Info, e ast.Expr) string {
+	if sel, ok := ast.Unparen(e).(*ast.SelectorExpr); ok {
+		if t := info.TypeOf(sel.X); t != nil {
+			return types.TypeString(t, func(p *types.Package) string { return p.Name() }) + ".Close"
+		}
+	}
+	return "Close"
 }
